@@ -197,6 +197,15 @@ def r5_symbol_file(ctx: Ctx) -> None:
     ok = len(loops) == 1 and unparse(loops[0].iter) == "self.scopes" and len(loops[0].body) == 1 and isinstance(loops[0].body[0], ast.If) \
         and unparse(loops[0].body[0].test) == "not isinstance(scope, InternalScope)" and [unparse(b) for b in loops[0].body[0].body] == ["labels += scope.get_labels()"]
     ctx.check(ok, "Resolver.get_all_labels", "labels of every scope except loop-iteration (internal) scopes, each once")
+    # "internal" means "a loop iteration" and nothing else: whoever else opens an internal scope hides its labels from the symbol file
+    for fn in ctx.repo.all_functions():
+        for c in calls_in(fn.node):
+            cn = call_name(c) or ""
+            if cn.endswith(".append_internal_scope") or cn == "InternalScope":
+                ctx.count("internal_scope_sites")
+                ctx.check(fn.fq in ("a816.parse.codegen:generate_for", "a816.symbols:Resolver.append_internal_scope"), f"{fn.where}:{unparse(c)[:40]}",
+                          "only loop iterations open an internal scope; labels defined in any other internal scope are dropped from the exported symbol file")
+    ctx.floor("internal_scope_sites", 2)
     gls = ctx.repo.func("a816.symbols", "Scope.get_labels")
     ctx.check([unparse(s) for s in gls.node.body] == ["return self.labels.items()"], "Scope.get_labels", "the scope's own label table")
     ctx.count("symbol_file_facts", 5)
@@ -208,6 +217,14 @@ def r6_copier_header_shift(ctx: Ctx) -> None:
     from .c11 import r3_no_wrap_and_copier
 
     r3_no_wrap_and_copier(ctx)
+
+
+def r7_writers_place_blocks(ctx: Ctx) -> None:
+    """`the SFC image equals the IPS patch applied to an empty image`: both writers put each block at its address, in write order
+    (shared with C03.R4 / C11.R1-R2)"""
+    from .c03 import r4_writers_place_blocks
+
+    r4_writers_place_blocks(ctx)
 
 
 def rb_binding_agreement(ctx: Ctx) -> None:
@@ -223,4 +240,4 @@ def rm_no_process_lifetime_results(ctx: Ctx) -> None:
     state_rule(ctx)
 
 
-RULES = [r1_options_reach_assembler, r2_mapping_choices_total, r3_defines_are_integers, r4_one_pipeline, r5_symbol_file, r6_copier_header_shift, rb_binding_agreement, rm_no_process_lifetime_results]
+RULES = [r1_options_reach_assembler, r2_mapping_choices_total, r3_defines_are_integers, r4_one_pipeline, r5_symbol_file, r6_copier_header_shift, r7_writers_place_blocks, rb_binding_agreement, rm_no_process_lifetime_results]
